@@ -91,3 +91,74 @@ def state_roundtrip(ctx, ci, rule='AGREE-1', exclude=()):
     for a in missing:
         ctx.undecided(rule, '%s state key %r' % (ci.name, a), where(ini), 'attribute initialised by __init__ has no model in the round-trip specification')
     return results
+
+
+def conversion_roundtrip(ctx, ci, to_name, from_name, rule='AGREE-1', label='table column'):
+    """obj.<to_name>() handed to cls.<from_name>() gives the attributes back (interpreted; tables are modelled by fitsem).  Returns True when decided."""
+    from .fitsem import FitsHooks, QCol
+    repo = ctx.repo
+    spec = _spec(repo, ci.name)
+    tofi, fromfi = ci.methods.get(to_name), ci.methods.get(from_name)
+    if spec is None or tofi is None or fromfi is None:
+        return False
+    ctx.fn(tofi); ctx.fn(fromfi)
+    I = Interp(repo, FitsHooks())
+    o = Obj(ci, {})
+    try:
+        I.call(ci.methods['__init__'], [], selfv=o)
+    except Exception:
+        pass
+    for a, v in spec.items():
+        setter = repo.find_setter(ci, a)
+        priv = setter_private_attr(setter) if setter is not None else None
+        o.attrs[priv or a] = v
+    mid = I.call(tofi, [], selfv=o)
+    from .interp import ClassRef
+    out = I.call(fromfi, [ClassRef(ci), mid]) if not isinstance(mid, Unk) else mid
+    if not isinstance(out, Obj):
+        return False
+    res = {}
+    for a in spec:
+        v1, v2 = I.getattr(o, a, None, tofi.module), I.getattr(out, a, None, tofi.module)
+        if isinstance(v2, QCol):
+            v2 = v2.as_value() if v2.unit is not None else v2.data_
+        if isinstance(v1, Unk) or isinstance(v2, Unk):
+            return False
+        res[a] = (v1, v2)
+    for a, (v1, v2) in res.items():
+        inst = '%s %s' % (label, a)
+        if _same(v1, v2):
+            ctx.ok(rule, inst, where(fromfi), '%s(%s()) gives %s back' % (from_name, to_name, a))
+        else:
+            d1 = alg.show(v1.poly, 80) if isinstance(v1, Arr) else repr(v1)
+            d2 = alg.show(v2.poly, 80) if isinstance(v2, Arr) else repr(v2)
+            ctx.violation(rule, inst, where(fromfi), '%s(%s()) does not give %s back: it was %s and comes back as %s' % (from_name, to_name, a, d1, d2), 'conversion-roundtrip')
+    return True
+
+
+def extinction_from_file(ctx, rule='AGREE-1'):
+    """Extinction.from_file with columns=(3, 1) and symbolic units: wav is file column 3 in wav_unit, chi is file column 1 in chi_unit"""
+    from .fitsem import FitsHooks
+    from .interp import ClassRef
+    repo = ctx.repo
+    ci = repo.cls('extinction.extinction', 'Extinction')
+    ff = ci.methods.get('from_file')
+    if ff is None:
+        return False
+    ctx.fn(ff)
+    I = Interp(repo, FitsHooks())
+    uw, uc = unit_atom('Uw'), unit_atom('Uc')
+    out = I.call(ff, [ClassRef(ci), 'FILE'], {'columns': (3, 1), 'wav_unit': Arr((), uw, unit=uw), 'chi_unit': Arr((), uc, unit=uc)})
+    if not isinstance(out, Obj):
+        return False
+    w, c = I.getattr(out, 'wav', None, ff.module), I.getattr(out, 'chi', None, ff.module)
+    if isinstance(w, Unk) or isinstance(c, Unk) or not isinstance(w, Arr) or not isinstance(c, Arr):
+        return False
+    okw = w.poly == sym('filecol3', 'row') * uw
+    okc = c.poly == sym('filecol1', 'row') * uc
+    inst = 'from_file fields'
+    if okw and okc:
+        ctx.ok(rule, inst, where(ff), 'first selected column -> wav in wav_unit ; second -> chi in chi_unit')
+    else:
+        ctx.violation(rule, inst, where(ff), 'with columns=(3, 1): wav is %s, chi is %s' % (alg.show(w.poly, 60), alg.show(c.poly, 60)), 'from-file')
+    return True
